@@ -10,22 +10,175 @@
         ([oob] = false), every retired pointer has a place, and a pointer whose place is "array of r" IS in the
         effective content of r, "in flight in t" IS pending or freed in t (and t owns a record), "disposed" IS in
         the disposed list; every record with an array is on thread_list_.
+    Later additions (this file now also shadows [VB], [AuxB], [JO], [JK], [JR] of DhpInvB, with three more view fields):
+      - [vb_arr] / [jc_arr]: "the record I am attached to has a retired array" (from the end of retired_array::init in
+        smr::alloc_thread_data to the test retired_.empty() in smr::free_thread_data); with it every push of the model finds
+        a block and a free cell, and [jw_8 : oob g = false] is part of the invariant: the flag is never set
+        (LV.Proofs.DhpConsThm.dhp_oob_false);
+      - [vb_mine], [vb_s0] / [JH] ([jw_9]): the history part over the trace functions of LV.Proofs.DhpConsSTrace -- while a
+        thread holds the record r of its last "_att" event, every pointer it handed to retire() since then is in the array
+        of r, in flight in that thread, or disposed ([jh_mine]); a thread whose last event is "_scanb r" has nothing in flight
+        ([jh_sb], [jh_s0]).  "_att" and "_scanb" events are no longer quiet ([qevB] of DhpConsQuietB); ghost steps
+        S_att, S_scanb, S_s0clr, S_mineclr in DhpConsStepsB10.
     [piB] is shadowed by a version that also keeps [oob].  The copies LV.Proofs.DhpCons... of DhpQuietB ... DhpMainC
     differ from the originals only where the JW part of a goal is proved (and in the three places described above). *)
 From Coq Require Import ZArith NArith List String Bool Lia PeanoNat.
-From LV Require Import Base.Conc Base.Events Model.DhpLang Model.Dhp Proofs.DhpBase Proofs.DhpSeq Proofs.DhpSeqThm Proofs.DhpHist Proofs.DhpInvB.
+From LV Require Import Base.Conc Base.Events Model.DhpLang Model.Dhp Proofs.DhpBase Proofs.DhpSeq Proofs.DhpSeqThm Proofs.DhpHist Proofs.DhpInvB Proofs.DhpConsSTrace.
 Import ListNotations.
+
+(** ** the view and the auxiliary state of DhpInvB with one more view field:
+      [vb_arr] = the thread record the thread is attached to, from the end of retired_array::init in
+      smr::alloc_thread_data to the test retired_.empty() in smr::free_thread_data: the record is owned and has a
+      retired array ([jc_arr]).  This is the thread-local knowledge that discharges [oob] = false ([jw_8]). *)
+Record VB := mkVB {
+  vb_own : list nat; vb_node : option nat; vb_new : option (nat * option nat); vb_blk : option (nat * bool);
+  vb_limbo : option (option nat * list nat); vb_pend : option nat; vb_freed : list nat; vb_full : option nat;
+  vb_move : option (nat * option nat); vb_cur : option (nat * nat * nat); vb_dead : option nat;
+  vb_arr : option nat;
+  vb_mine : option nat;     (* the record of my last "_att" event, until I give it up (thread_id_.store( null ) in free_thread_data) *)
+  vb_s0 : option nat }.     (* my last event is "_scanb r" *)
+
+Definition vb0 : VB := mkVB [] None None None None None [] None None None None None None None.
+
+Record AuxB := mkAuxB {
+  bvs : nat -> VB; rbown : nat -> rbo; wh : nat -> place;
+  rch : nat -> list nat; rw : nat -> nat; moved : nat -> nat; dead : nat -> bool; tl : list nat }.
+Definition viewB (a : AuxB) (t : nat) : VB := bvs a t.
+
+Section InvB0.
+  Variable c : cfg.
+  Notation RB := (c_RB c).
+
+  (** effective content of the retired array of record r *)
+  Definition ec (g : G) (a : AuxB) (r : nat) : list nat := skipn (moved a r) (content g (rch a r) (rw a r)).
+
+  Record JO (g : G) (a : AuxB) : Prop := {
+    jo_tl : is_tl g (tlist g) (tl a) /\ NoDup (tl a);
+    jo_node : forall t h, vb_node (bvs a t) = Some h -> In h (tl a);
+    jo_new : forall t r nx, vb_new (bvs a t) = Some (r, nx) ->
+               r < List.length (recs g) /\ ~ In r (tl a) /\ r_next (grec g r) = nx /\
+               (r_tid (grec g r) = 0 \/ In r (vb_own (bvs a t)));
+    jo_newx : forall t t' r nx nx', vb_new (bvs a t) = Some (r, nx) -> vb_new (bvs a t') = Some (r, nx') -> t = t';
+    jo_own : forall t r, In r (vb_own (bvs a t)) -> r < List.length (recs g) /\ r_tid (grec g r) = S t }.
+
+  Record JK (g : G) (a : AuxB) (fr : list nat) : Prop := {
+    jk_blen : forall b, List.length (rbs g) <= b -> rbown a b = RNone;
+    jk_cells : forall b, b < List.length (rbs g) -> List.length (rb_cells (grb g b)) = RB;
+    jk_free : (forall b, In b fr <-> rbown a b = RFree) /\ NoDup fr;
+    jk_blk : forall t b fl, vb_blk (bvs a t) = Some (b, fl) ->
+               rbown a b = RPriv t /\ (fl = true -> rb_next (grb g b) = None) /\
+               (forall o lb, vb_limbo (bvs a t) = Some (o, lb) -> ~ In b lb);
+    jk_limbo : forall t o lb, vb_limbo (bvs a t) = Some (o, lb) ->
+               is_chain c g o lb /\ NoDup lb /\ forall b, In b lb -> rbown a b = RPriv t }.
+
+  Record JR (g : G) (a : AuxB) : Prop := {
+    jr_rec : forall r, r < List.length (recs g) ->
+               (rch a r = [] /\ rw a r = 0 /\ moved a r = 0 /\
+                (dead a r = true \/ (r_head (grec g r) = None /\ r_cb (grec g r) = None))) \/
+               (dead a r = false /\ Rinv c g r (rch a r) (rw a r) /\ (forall b, In b (rch a r) -> rbown a b = RRec r) /\
+                moved a r <= rw a r /\
+                (rw a r < List.length (rch a r) * RB \/ exists t, vb_full (bvs a t) = Some r));
+    jr_mvd : forall r, moved a r <> 0 -> exists t ob, vb_move (bvs a t) = Some (r, ob);
+    jr_move : forall t r ob, vb_move (bvs a t) = Some (r, ob) ->
+               In r (vb_own (bvs a t)) /\
+               forall b, ob = Some b -> vb_cur (bvs a t) = None -> exists j, nth_error (rch a r) j = Some b /\ moved a r = j * RB;
+    jr_cur : forall t b i n, vb_cur (bvs a t) = Some (b, i, n) ->
+               exists r ob j, vb_move (bvs a t) = Some (r, ob) /\ nth_error (rch a r) j = Some b /\
+                           moved a r = j * RB + i /\ i + n <= RB /\ j * RB + i + n <= rw a r /\
+                           i + n = (if oeqb (Some b) (r_cb (grec g r)) then r_cc (grec g r) else RB);
+    jr_dead : (forall t r, vb_dead (bvs a t) = Some r -> In r (vb_own (bvs a t)) /\ dead a r = true) /\
+              (forall r, dead a r = true -> exists t, vb_dead (bvs a t) = Some r);
+    jr_full : forall t r, vb_full (bvs a t) = Some r -> In r (vb_own (bvs a t)) /\ rch a r <> [] }.
+
+  Lemma JO_frame g g' a a' :
+    tlist g' = tlist g -> List.length (recs g') = List.length (recs g) ->
+    (forall r, r_tid (grec g' r) = r_tid (grec g r) /\ r_next (grec g' r) = r_next (grec g r)) ->
+    (forall t, vb_own (bvs a' t) = vb_own (bvs a t) /\ vb_node (bvs a' t) = vb_node (bvs a t) /\ vb_new (bvs a' t) = vb_new (bvs a t)) ->
+    tl a' = tl a -> JO g a -> JO g' a'.
+  Proof.
+    intros E1 E2 E3 V Et [J1 J2 J3 J4 J5]. constructor.
+    - rewrite Et, E1. split; [|apply J1]. apply is_tl_frame with (g := g); [lia| |apply J1]. intros r _. apply E3.
+    - intros t h. destruct (V t) as (_ & -> & _). rewrite Et. apply J2.
+    - intros t r nx. destruct (V t) as (-> & _ & ->). rewrite Et, E2. destruct (E3 r) as (-> & ->). apply J3.
+    - intros t t' r nx nx'. destruct (V t) as (_ & _ & ->). destruct (V t') as (_ & _ & ->). apply J4.
+    - intros t r. destruct (V t) as (-> & _ & _). rewrite E2. destruct (E3 r) as (-> & _). apply J5.
+  Qed.
+
+  Lemma JK_frame g g' a a' fr :
+    List.length (rbs g') = List.length (rbs g) ->
+    (forall b, rb_next (grb g' b) = rb_next (grb g b) /\ List.length (rb_cells (grb g' b)) = List.length (rb_cells (grb g b))) ->
+    (forall b, rbown a' b = rbown a b) ->
+    (forall t, vb_blk (bvs a' t) = vb_blk (bvs a t) /\ vb_limbo (bvs a' t) = vb_limbo (bvs a t)) ->
+    JK g a fr -> JK g' a' fr.
+  Proof.
+    intros E1 E2 E3 V [J1 J2 J3 J4 J5]. constructor.
+    - intros b. rewrite E1, E3. apply J1.
+    - intros b. rewrite E1. destruct (E2 b) as (_ & ->). apply J2.
+    - split; [|apply J3]. intros b. rewrite E3. apply J3.
+    - intros t b fl. destruct (V t) as (-> & ->). rewrite E3. destruct (E2 b) as (-> & _). apply J4.
+    - intros t o lb. destruct (V t) as (_ & ->). intros H. destruct (J5 t o lb H) as (K1 & K2 & K3).
+      split; [|split; auto]. + apply is_chain_frame with (g := g); auto. lia. + intros b. rewrite E3. apply K3.
+  Qed.
+
+  Lemma JR_frame g g' a a' :
+    List.length (recs g') = List.length (recs g) -> List.length (rbs g) <= List.length (rbs g') ->
+    (forall r, r_head (grec g' r) = r_head (grec g r) /\ r_tail (grec g' r) = r_tail (grec g r) /\
+               r_cb (grec g' r) = r_cb (grec g r) /\ r_cc (grec g' r) = r_cc (grec g r)) ->
+    (forall b r, b < List.length (rbs g) -> rbown a b = RRec r ->
+               rb_next (grb g' b) = rb_next (grb g b) /\ List.length (rb_cells (grb g' b)) = List.length (rb_cells (grb g b))) ->
+    (forall b r, rbown a b = RRec r -> rbown a' b = RRec r) ->
+    (forall r, rch a' r = rch a r /\ rw a' r = rw a r /\ moved a' r = moved a r /\ dead a' r = dead a r) ->
+    (forall t, vb_full (bvs a' t) = vb_full (bvs a t) /\ vb_move (bvs a' t) = vb_move (bvs a t) /\
+               vb_cur (bvs a' t) = vb_cur (bvs a t) /\ vb_dead (bvs a' t) = vb_dead (bvs a t)) ->
+    (forall t r, In r (vb_own (bvs a t)) ->
+                 (exists ob, vb_move (bvs a t) = Some (r, ob)) \/ vb_dead (bvs a t) = Some r \/ vb_full (bvs a t) = Some r ->
+                 In r (vb_own (bvs a' t))) ->
+    JR g a -> JR g' a'.
+  Proof.
+    intros E1 E2 E3 E4 E5 E6 V Vo [J1 J2 J3 J4 J5 J6]. constructor.
+    - intros r Hr. rewrite E1 in Hr. destruct (E6 r) as (-> & -> & -> & ->). destruct (E3 r) as (F1 & F2 & F3 & F4).
+      destruct (J1 r Hr) as [K|(K1 & K2 & K3 & K4 & K5)]; [left; rewrite F1, F3; exact K|right].
+      split; auto. split; [apply Rinv_frame with (g := g); auto; try lia|].
+      { intros b Hb. apply E4 with (r := r); [|apply K3; exact Hb]. destruct K2 as [_ Ich _ _ _ _ _]. eapply is_chain_lt; eauto. }
+      split; [intros b Hb; apply E5; apply K3; exact Hb|]. split; auto.
+      destruct K5 as [K5|(t & K5)]; [left; exact K5|right; exists t]. destruct (V t) as (-> & _). exact K5.
+    - intros r. destruct (E6 r) as (_ & _ & -> & _). intros H. destruct (J2 r H) as (t & ob & K). exists t, ob. destruct (V t) as (_ & -> & _). exact K.
+    - intros t r ob. destruct (V t) as (_ & -> & -> & _). intros H. destruct (J3 t r ob H) as (K1 & K2). split; [apply Vo; eauto|].
+      destruct (E6 r) as (-> & _ & -> & _). exact K2.
+    - intros t b i n. destruct (V t) as (_ & -> & -> & _). intros H. destruct (J4 t b i n H) as (r & ob & j & K).
+      exists r, ob, j. destruct (E6 r) as (-> & -> & -> & _). destruct (E3 r) as (_ & _ & -> & ->). exact K.
+    - split.
+      + intros t r. destruct (V t) as (_ & _ & _ & ->). destruct (E6 r) as (_ & _ & _ & ->). intros H. destruct (proj1 J5 t r H). split; auto.
+      + intros r. destruct (E6 r) as (_ & _ & _ & ->). intros H. destruct (proj2 J5 r H) as (t & K). exists t. destruct (V t) as (_ & _ & _ & ->). exact K.
+    - intros t r. destruct (V t) as (-> & _). intros H. destruct (J6 t r H) as (K1 & K2). split; [apply Vo; auto|].
+      destruct (E6 r) as (-> & _). exact K2.
+  Qed.
+End InvB0.
 
 (** what must stay the same in a view for the pointer part *)
 Definition Vsame (v v' : VB) : Prop :=
-  vb_pend v' = vb_pend v /\ vb_freed v' = vb_freed v /\ (vb_own v <> [] -> vb_own v' <> []) /\
+  vb_pend v' = vb_pend v /\ vb_freed v' = vb_freed v /\
+  ((vb_own v <> [] -> vb_own v' <> []) /\ vb_arr v' = vb_arr v /\ (forall r, vb_arr v = Some r -> In r (vb_own v) -> In r (vb_own v')) /\
+   vb_mine v' = vb_mine v /\ vb_s0 v' = vb_s0 v /\ (forall r, vb_mine v = Some r -> In r (vb_own v) -> In r (vb_own v'))) /\
   vb_move v' = vb_move v /\ vb_cur v' = vb_cur v /\ vb_new v' = vb_new v.
+
+(** ... and for the history part *)
+Definition HV (v v' : VB) : Prop :=
+  vb_mine v' = vb_mine v /\ vb_s0 v' = vb_s0 v /\ vb_pend v' = vb_pend v /\ vb_freed v' = vb_freed v /\
+  (forall r, vb_mine v = Some r -> In r (vb_own v) -> In r (vb_own v')).
+Lemma HV_refl v : HV v v.
+Proof. unfold HV. repeat split; auto. Qed.
+Lemma Vsame_HV v v' : Vsame v v' -> HV v v'.
+Proof. intros (V1 & V2 & (_ & _ & _ & V3 & V4 & V5) & _). unfold HV. auto. Qed.
+#[export] Hint Extern 1 (HV _ _) => (unfold HV; cbn; repeat split; auto; congruence) : core.
+#[export] Hint Resolve HV_refl : core.
 
 Lemma Vsame_refl v : Vsame v v.
 Proof. unfold Vsame. repeat split; auto. Qed.
 
 #[export] Hint Extern 1 (Vsame _ _) => (unfold Vsame; cbn; repeat split; auto; congruence) : core.
 #[export] Hint Resolve incl_refl : core.
+#[export] Hint Resolve DhpConsSTrace.HSame_refl : core.
 
 Section InvC.
   Variable c : cfg.
@@ -38,25 +191,47 @@ Section InvC.
                (vb_pend (bvs a t) = Some p \/ In p (vb_freed (bvs a t))) /\ vb_own (bvs a t) <> [];
     jc_disp : forall p, wh a p = LDisp -> In p ds;
     jc_tl : forall r, r < List.length (recs g) -> In r (tl a) \/ exists t nx, vb_new (bvs a t) = Some (r, nx);
-    jc_new : forall t r nx, vb_new (bvs a t) = Some (r, nx) -> rch a r = [] }.
+    jc_new : forall t r nx, vb_new (bvs a t) = Some (r, nx) -> rch a r = [];
+    jc_arr : forall t r, vb_arr (bvs a t) = Some r -> In r (vb_own (bvs a t)) /\ rch a r <> [] }.
 
   Definition JM (a : AuxB) : Prop :=
     forall t r, vb_move (bvs a t) = Some (r, None) -> vb_cur (bvs a t) = None -> moved a r = rw a r.
 
-  Record JW (g : G) (a : AuxB) (ds rt : list nat) : Prop := {
+  (** what the history says about the pointers a thread retired since it attached *)
+  Record JH (a : AuxB) (tr : list (nat * ev)) : Prop := {
+    jh_mine : forall t r, vb_mine (bvs a t) = Some r ->
+                In r (vb_own (bvs a t)) /\ latt tr t = Some r /\
+                forall p, In p (mine tr t) -> wh a p = LRec r \/ wh a p = LFly t \/ wh a p = LDisp;
+    jh_sb : forall t r, lsb tr t = Some r -> vb_s0 (bvs a t) = Some r;
+    jh_s0 : forall t r, vb_s0 (bvs a t) = Some r ->
+                vb_pend (bvs a t) = None /\ vb_freed (bvs a t) = [] /\ vb_mine (bvs a t) = Some r }.
+
+  Lemma JH_frame a a' tr tr' :
+    HSame tr tr' -> (forall p, wh a' p = wh a p) -> (forall t, HV (bvs a t) (bvs a' t)) -> JH a tr -> JH a' tr'.
+  Proof.
+    intros Hs Ew V [H1 H2 H3]. constructor.
+    - intros t r. destruct (V t) as (-> & _ & _ & _ & V3). destruct (Hs t) as (-> & -> & _).
+      intros E. destruct (H1 t r E) as (X1 & X2 & X3). split; auto. split; auto. intros p. rewrite Ew. apply X3.
+    - intros t r E. destruct (V t) as (_ & -> & _). apply H2. apply (Hs t). exact E.
+    - intros t r. destruct (V t) as (-> & -> & -> & -> & _). apply H3.
+  Qed.
+
+  Record JW (g : G) (a : AuxB) (ds rt : list nat) (tr : list (nat * ev)) : Prop := {
     jw_1 : forall r, r < List.length (recs g) -> NoDup (ec g a r) /\ forall p, In p (ec g a r) -> wh a p = LRec r;
     jw_2 : forall t p, vb_pend (bvs a t) = Some p -> wh a p = LFly t /\ ~ In p (vb_freed (bvs a t));
     jw_3 : forall t, NoDup (vb_freed (bvs a t)) /\ forall p, In p (vb_freed (bvs a t)) -> wh a p = LFly t;
     jw_4 : NoDup ds /\ forall p, In p ds -> wh a p = LDisp;
     jw_5 : forall p, wh a p <> LNo -> In p rt;
     jw_6 : JM a;
-    jw_7 : oob g = false -> JC g a ds rt }.
+    jw_7 : oob g = false -> JC g a ds rt;
+    jw_8 : oob g = false;
+    jw_9 : JH a tr }.
 
   Record JB (g : G) (a : AuxB) (tr : list (nat * ev)) : Prop := {
     jb_o : JO g a;
     jb_k : JK c g a (freeh (hist tr) FRt);
     jb_r : JR c g a;
-    jb_w : JW g a (disposed_tr tr) (retired_tr tr) }.
+    jb_w : JW g a (disposed_tr tr) (retired_tr tr) tr }.
 
   Definition InvB (g : G) (a : AuxB) (tr : list (nat * ev)) : Prop :=
     flbad (hist tr) = false -> NoDup (retired_tr tr) -> JB g a tr.
@@ -65,7 +240,7 @@ Section InvC.
   Definition Asame (a a' : AuxB) : Prop :=
     (forall p, wh a' p = wh a p) /\
     (forall r, moved a' r = moved a r /\ rw a' r = rw a r /\ (rch a r = [] -> rch a' r = [])) /\
-    incl (tl a) (tl a').
+    incl (tl a) (tl a') /\ (forall r, rch a' r = [] -> rch a r = []).
 
   Lemma JC_frame g g' a a' ds rt rt' :
     List.length (recs g') = List.length (recs g) ->
@@ -74,34 +249,36 @@ Section InvC.
     (forall p, In p rt' -> In p rt) ->
     JC g a ds rt -> JC g' a' ds rt'.
   Proof.
-    intros E1 E2 (A1 & A2 & A3) V Hrt [C1 C2 C3 C4 C5 C6]. constructor.
+    intros E1 E2 (A1 & A2 & A3 & A4) V Hrt [C1 C2 C3 C4 C5 C6 C7]. constructor.
     - intros p Hp. rewrite A1. apply C1. now apply Hrt.
     - intros p r. rewrite A1, E1. intros H. destruct (C2 p r H) as (X1 & X2). split; auto. rewrite E2 by auto. exact X2.
-    - intros p t. rewrite A1. intros H. destruct (C3 p t H) as (X1 & X2). destruct (V t) as (-> & -> & V3 & _). auto.
+    - intros p t. rewrite A1. intros H. destruct (C3 p t H) as (X1 & X2). destruct (V t) as (-> & -> & (V3 & _) & _). auto.
     - intros p. rewrite A1. apply C4.
     - intros r. rewrite E1. intros Hr. destruct (C5 r Hr) as [X|(t & nx & X)]; [left; now apply A3|right; exists t, nx].
       destruct (V t) as (_ & _ & _ & _ & _ & ->). exact X.
     - intros t r nx. destruct (V t) as (_ & _ & _ & _ & _ & ->). intros H. apply A2. eapply C6; eauto.
+    - intros t r. destruct (V t) as (_ & _ & (_ & -> & V3 & _) & _). intros H. destruct (C7 t r H) as (X1 & X2). split; auto.
   Qed.
 
   Lemma JM_frame a a' : Asame a a' -> (forall t, Vsame (bvs a t) (bvs a' t)) -> JM a -> JM a'.
   Proof.
-    intros (A1 & A2 & A3) V H t r. destruct (V t) as (_ & _ & _ & -> & -> & _). intros H1 H2.
+    intros (A1 & A2 & A3 & A4) V H t r. destruct (V t) as (_ & _ & _ & -> & -> & _). intros H1 H2.
     destruct (A2 r) as (-> & -> & _). exact (H t r H1 H2).
   Qed.
 
-  Lemma JW_frame g g' a a' ds rt rt' :
+  Lemma JW_frame g g' a a' ds rt rt' tr tr' :
     List.length (recs g') = List.length (recs g) ->
     (forall r, r < List.length (recs g) -> ec g' a' r = ec g a r) ->
     (forall p, wh a' p = wh a p) ->
     (forall t, Vsame (bvs a t) (bvs a' t)) ->
     (forall p, In p rt -> In p rt') -> (forall p, In p rt' -> In p rt) ->
     (forall r, moved a' r = moved a r /\ rw a' r = rw a r /\ (rch a r = [] -> rch a' r = [])) ->
-    incl (tl a) (tl a') -> oob g' = oob g ->
-    JW g a ds rt -> JW g' a' ds rt'.
+    (forall r, rch a' r = [] -> rch a r = []) ->
+    incl (tl a) (tl a') -> oob g' = oob g -> HSame tr tr' ->
+    JW g a ds rt tr -> JW g' a' ds rt' tr'.
   Proof.
-    intros E1 E2 E3 V Hrt Hrt' A2 A3 Eo [J1 J2 J3 J4 J5 J6 J7].
-    assert (As : Asame a a') by (split; [|split]; auto).
+    intros E1 E2 E3 V Hrt Hrt' A2 A4 A3 Eo Hs [J1 J2 J3 J4 J5 J6 J7 J8 J9].
+    assert (As : Asame a a') by (split; [|split; [|split]]; auto).
     constructor.
     - intros r Hr. rewrite E1 in Hr. rewrite E2 by auto. split; [apply J1; auto|]. intros p. rewrite E3. now apply J1.
     - intros t p. destruct (V t) as (-> & -> & _). rewrite E3. apply J2.
@@ -110,6 +287,8 @@ Section InvC.
     - intros p. rewrite E3. intros H. apply Hrt. now apply J5.
     - eapply JM_frame; eauto.
     - rewrite Eo. intros Ho. apply (JC_frame g g' a a' ds rt rt' E1 E2 As V); auto.
+    - rewrite Eo. exact J8.
+    - eapply JH_frame; eauto. intros t. apply Vsame_HV. apply V.
   Qed.
 End InvC.
 
@@ -121,6 +300,9 @@ Proof. split; [apply DhpInvB.piB_refl|reflexivity]. Qed.
 Lemma piB_trans g1 g2 g3 : piB g1 g2 -> piB g2 g3 -> piB g1 g3.
 Proof. intros (A & A') (B & B'). split; [eapply DhpInvB.piB_trans; eauto|congruence]. Qed.
 
+Lemma ec_piB g g' a r : DhpInvB.piB g g' -> ec g' a r = ec g a r.
+Proof. intros P. unfold ec, content. now rewrite (flat_piB g g' _ P). Qed.
+
 Lemma JB_piB c g g' a tr : piB g g' -> JB c g a tr -> JB c g' a tr.
 Proof.
   intros (P & Po) [JO1 JK1 JR1 JW1]. pose proof P as (A0&A1&A2&A3&A4). constructor.
@@ -131,6 +313,6 @@ Proof.
     all: try solve [intros r; destruct (A3 r) as (X1&X2&X3&X4&X5&X6); auto].
     all: try solve [intros b r Hb _; destruct (A4 b) as (X1&X2); rewrite X2; auto].
     all: try solve [intros t; repeat split; reflexivity].
-  - apply JW_frame with (g := g) (a := a) (rt := retired_tr tr); auto.
+  - apply JW_frame with (g := g) (a := a) (rt := retired_tr tr) (tr := tr); auto.
     all: try solve [intros r _; now apply ec_piB].
 Qed.
